@@ -6,7 +6,7 @@ CONSTANTS
   Weak <- NoWeak
   MaxConn = 2
   MaxSend = 2
-  MaxAdv = 2
+  MaxAdv = 1
   CacheMax = 16
   Asks = {FALSE}
 INVARIANTS Attribution DialSafety Whitelist
